@@ -535,7 +535,9 @@ func (c ValueCase) classes(r *vh.R) {
 	}
 }
 
-var valueProp = vh.Define("C16", "value-roundtrip", func(c ValueCase, r *vh.R) {
+var valueProp = vh.Define("C16", "value-roundtrip", checkValue)
+
+func checkValue(c ValueCase, r *vh.R) {
 	if c.invalidity() != "" {
 		r.Skip = true
 		return
@@ -618,7 +620,7 @@ var valueProp = vh.Define("C16", "value-roundtrip", func(c ValueCase, r *vh.R) {
 	if !refsh.KeysAscending(ref.PL) {
 		r.Failf("params-not-sorted", "parameters are not in sorted key order in %q", trunc(s))
 	}
-})
+}
 
 var (
 	alphaL     = "abcdefghijklmnopqrstuvwxyz"
@@ -815,7 +817,9 @@ func TestValueEdgeCases(t *testing.T) {
 
 // ------------------------------------------------------------------- (2) invalid-values
 
-var invalidProp = vh.Define("C16", "invalid-values", func(c ValueCase, r *vh.R) {
+var invalidProp = vh.Define("C16", "invalid-values", checkInvalid)
+
+func checkInvalid(c ValueCase, r *vh.R) {
 	why := c.invalidity()
 	if why == "" || why == "malformed-case" {
 		r.Skip = true
@@ -840,7 +844,71 @@ var invalidProp = vh.Define("C16", "invalid-values", func(c ValueCase, r *vh.R) 
 			}
 		}
 	}
+}
+
+// ----------------------------------------------------------------------------- call histories
+//
+// The writers are judged over a HISTORY of calls in one process: refused values (which leave a
+// partly written output behind inside the writer) alternate with valid ones; every step is
+// judged exactly like a single value (round trip / uniqueness / refusal), so output that
+// depends on what was serialised or refused before is seen.
+
+type HistoryCase struct {
+	Steps []ValueCase `json:"steps"`
+}
+
+var historyProp = vh.Define("C16", "history", func(c HistoryCase, r *vh.R) {
+	// Unjudged successful calls first: whatever earlier cases of this process left behind in the
+	// writers is used up here, so that a failure below is caused by this case's own steps (and the
+	// replay file reproduces it in a fresh process).
+	for i := 0; i < 8; i++ {
+		pi := sh.ParameterisedIdentifier{Label: "flush", Params: sh.Parameters{}}
+		pi.String()
+		sh.ParameterisedList{pi}.String()
+		sh.ListOfLists{{sh.Token("flush")}}.String()
+	}
+	refusedBefore, validAfterRefusal := false, 0
+	for i, st := range c.Steps {
+		why := st.invalidity()
+		if why == "malformed-case" {
+			r.Skip = true
+			return
+		}
+		sub := &vh.R{}
+		if why == "" {
+			checkValue(st, sub)
+			if refusedBefore {
+				validAfterRefusal++
+			}
+		} else {
+			checkInvalid(st, sub)
+			refusedBefore = true
+		}
+		if sub.V != nil {
+			r.Failf("history-"+sub.V.Kind, "step %d of %d (after %d earlier calls, refused before: %v): %s", i, len(c.Steps), i, refusedBefore, sub.V.Msg)
+			return
+		}
+	}
+	if validAfterRefusal > 0 {
+		r.NT()
+		r.Class("valid-after-refusal")
+	}
 })
+
+func TestPropHistory(t *testing.T) {
+	historyProp.Rapid(t, func(t *rapid.T) HistoryCase {
+		var c HistoryCase
+		n := rapid.IntRange(2, 5).Draw(t, "steps")
+		for i := 0; i < n; i++ {
+			if rapid.IntRange(0, 1).Draw(t, "invalid") == 0 {
+				c.Steps = append(c.Steps, genInvalid(t))
+			} else {
+				c.Steps = append(c.Steps, genValue(t))
+			}
+		}
+		return c
+	})
+}
 
 func describe(c ValueCase) string {
 	b, _ := json.Marshal(c)
